@@ -199,11 +199,17 @@ stringify(const string &source) {
         break;
 
       case '\'':
-        state ^= S_single_quoted;
+        // An apostrophe inside a string literal is not a delimiter.
+        if ((state & S_double_quoted) == 0) {
+          state ^= S_single_quoted;
+        }
         break;
 
       case '"':
-        state ^= S_double_quoted;
+        // Likewise a double quote inside a character literal.
+        if ((state & S_single_quoted) == 0) {
+          state ^= S_double_quoted;
+        }
         result += '\\';
         break;
       }
